@@ -1626,7 +1626,6 @@ func newParser
 func memoized
   props C16 C08 C01
   noverify
-  assigns nothing
   ensures result != nil
 
 // setOptions: options (functional option values) configure flags of the parser; they are assumed not to move its position
